@@ -100,6 +100,11 @@ def gen_case(rng: random.Random):
         dets = [d for d in dets if not (d["label"] in seen_l or seen_l.add(d["label"]))]
         case["iou"] = True
         case["exact"] = False
+    if kind == "points" and len(dets) >= 2 and rng.random() < 0.4:
+        # a point list that is not sorted by time (listed track by track, or as detected):
+        # node i is still ROW i of the list
+        rng.shuffle(dets)
+        case["unsorted"] = True
     case["dets"] = dets
     case["int_points"] = kind == "points" and exact and rng.random() < 0.5
     case["iou"] = kind == "seg" and rng.random() < 0.5
@@ -367,6 +372,9 @@ def run_shard(spec):
         if case.get("far"):
             acc["counters"]["cases-far-from-origin"] = \
                 acc["counters"].get("cases-far-from-origin", 0) + 1
+        if case.get("unsorted"):
+            acc["counters"]["point-lists-not-sorted-by-time"] = \
+                acc["counters"].get("point-lists-not-sorted-by-time", 0) + 1
         if rng.random() < 0.4:
             pick_exact_radius(case, rng)
         probs, n = judge(case)
@@ -395,7 +403,8 @@ def run_shard(spec):
 
 def floors(tier):
     return {"cases": 1500, "cases-with-inner-gap": 200, "cases-radius-on-distance": 200,
-            "cases-iou": 200, "multi-hypothesis-cases": 300, "cases-far-from-origin": 100}
+            "cases-iou": 200, "multi-hypothesis-cases": 300, "cases-far-from-origin": 100,
+            "point-lists-not-sorted-by-time": 100}
 
 
 def replay(doc):
